@@ -180,6 +180,8 @@ func runCase(c *Case) (res string) {
 		return "keys:" + strings.Join(parts, ",")
 	case "cache":
 		return runCache(c)
+	case "cachec":
+		return runCacheConc(c)
 	case "regex":
 		return runRegex(c, tree)
 	}
